@@ -4,6 +4,7 @@ import json
 import os
 import shutil
 import signal
+import time
 
 from . import build, gen_lock, gen_prog, lockstep, p10, prng, exhaust
 from .harness import new_result, fail, bump, RunTimeout
@@ -87,30 +88,152 @@ def gen_batch(rng, tier, index):
 def _alarm(signum, frame):
     raise RunTimeout()
 
-def run_batch(scn, res):
+class CHelper:
+    """A helper process (forked once per worker) that executes the batch run() of the C replicas.  A C run() that never
+    reaches its stop address polls for signals only when an instruction boundary falls inside a 10 T-state window
+    every 2^24 T-states; some loop periods never do, so SIGALRM cannot be relied on to get control back from C.  The
+    worker waits for the helper with a timeout, kills it if it does not answer and forks a new one when needed."""
+    def __init__(self):
+        self.pid = None
+
+    def _spawn(self):
+        import pickle, struct
+        req_r, req_w = os.pipe()
+        ans_r, ans_w = os.pipe()
+        pid = os.fork()
+        if pid == 0:
+            try:
+                os.close(req_w)
+                os.close(ans_r)
+                signal.signal(signal.SIGALRM, signal.SIG_DFL)
+                signal.alarm(0)
+                while True:
+                    hdr = _read_exact(req_r, 4)
+                    if hdr is None:
+                        break
+                    scn = pickle.loads(_read_exact(req_r, struct.unpack('<I', hdr)[0]))
+                    try:
+                        out = _batch_finals(scn, [k for k in scn['replicas'] if k in ('c', 'ccmio')], None)[0]
+                    except BaseException as e:
+                        out = {'error': '%s: %s' % (type(e).__name__, e)}
+                    data = pickle.dumps(out)
+                    _write_all(ans_w, struct.pack('<I', len(data)) + data)
+            finally:
+                os._exit(0)
+        os.close(req_r)
+        os.close(ans_w)
+        self.pid, self.req, self.ans = pid, req_w, ans_r
+
+    def submit(self, scn):
+        import pickle, struct
+        if self.pid is None:
+            self._spawn()
+        data = pickle.dumps(scn)
+        _write_all(self.req, struct.pack('<I', len(data)) + data)
+
+    def result(self, timeout):
+        """-> finals dict, or None if the helper had to be killed."""
+        import pickle, select, struct
+        deadline = time.time() + timeout
+        buf = b''
+        need = 4
+        size = None
+        while True:
+            left = deadline - time.time()
+            rl = select.select([self.ans], [], [], max(0, left))[0] if left > 0 else []
+            if not rl:
+                self.kill()
+                return None
+            b = os.read(self.ans, 1 << 20)
+            if not b:
+                self.kill()
+                return None
+            buf += b
+            if size is None and len(buf) >= 4:
+                size = struct.unpack('<I', buf[:4])[0]
+            if size is not None and len(buf) >= 4 + size:
+                return pickle.loads(buf[4:4 + size])
+
+    def kill(self):
+        if self.pid is not None:
+            try:
+                os.kill(self.pid, signal.SIGKILL)
+            except OSError:
+                pass
+            try:
+                os.waitpid(self.pid, 0)
+            except OSError:
+                pass
+            os.close(self.req)
+            os.close(self.ans)
+            self.pid = None
+
+def _read_exact(fd, n):
+    buf = b''
+    while len(buf) < n:
+        b = os.read(fd, n - len(buf))
+        if not b:
+            return None
+        buf += b
+    return buf
+
+def _write_all(fd, data):
+    while data:
+        n = os.write(fd, data)
+        data = data[n:]
+
+_chelper = CHelper()
+
+def _batch_finals(scn, kinds, limit_s):
+    """run(start, stop, interrupts) on the given replicas -> ({kind: (regs, rams, port log)}, [kinds that timed out])"""
     st = lockstep.materialise_state(scn)
     machine = st['machine']
     finals = {}
     timed_out = []
-    for kind in scn['replicas']:
+    for kind in kinds:
         rp = lockstep.get_replica(kind, machine)
         rp.reset(st)
-        # every run is guarded: the Python loops are interruptible, the C loop polls for signals every 2^24 T-states
-        old = signal.signal(signal.SIGALRM, _alarm)
-        signal.alarm(3)
+        if limit_s:
+            old = signal.signal(signal.SIGALRM, _alarm)
+            signal.alarm(limit_s)
         try:
             rp.sim.run(st['regs'][24], scn['stop'], scn['interrupts'])
         except RunTimeout:
             timed_out.append(kind)
             continue
         finally:
-            signal.alarm(0)
-            signal.signal(signal.SIGALRM, old)
+            if limit_s:
+                signal.alarm(0)
+                signal.signal(signal.SIGALRM, old)
         finals[kind] = (rp.regs(), rp.phys()[1], list(rp.world.log))
+    return finals, timed_out
+
+def run_batch(scn, res):
+    st = lockstep.materialise_state(scn)
+    machine = st['machine']
+    # the C replicas run in the helper process while the Python replicas run here (interruptible by SIGALRM)
+    for kind in scn['replicas']:
+        lockstep.get_replica(kind, machine)
+    ckinds = [k for k in scn['replicas'] if k in ('c', 'ccmio')]
+    if ckinds:
+        _chelper.submit(scn)
+    finals, timed_out = _batch_finals(scn, [k for k in scn['replicas'] if k not in ('c', 'ccmio')], 3)
+    if ckinds:
+        cf = _chelper.result(1 if timed_out else 30)
+        if cf is None:
+            timed_out += ckinds
+        elif 'error' in cf:
+            return fail(res, 'C06/batch/exception', 'C replica raised %s' % cf['error'])
+        else:
+            finals.update(cf)
     if timed_out:
         # a wall-clock limit is load dependent, so it never decides a verdict: the scenario is discarded and counted
         res['discard'] = 'batch program does not reach its stop address within the time limit on %s' % ('all replicas' if len(timed_out) == len(scn['replicas']) else 'some replicas')
         return res
+    return _compare_batch(scn, st, finals, res)
+
+def _compare_batch(scn, st, finals, res):
+    machine = st['machine']
     bump(res, 'batch_runs')
     for a, b, skip in (('py', 'pyfast', (29,)), ('py', 'c', (29,)), ('pycmio', 'ccmio', ())):
         if a in finals and b in finals:
